@@ -115,6 +115,18 @@ class VariableProcessorConfig:
         self.max_string_length = max_string_length
 
 
+class FrameParent(ParentNode):
+    """The parent of the top level values (defined here, and not per call, see VariableParent)."""
+
+    def __init__(self):
+        """Create a new parent."""
+        self.var_ids = []
+
+    def add_child(self, child):
+        """Add a child to this parent."""
+        self.var_ids.append(child)
+
+
 class VariableSetProcessor(Collector):
     """Handle the processing of variables."""
 
@@ -146,13 +158,6 @@ class VariableSetProcessor(Collector):
             return VariableId(check_id, name), self.__log_str(value)
 
         # else this is an unknown value so process breadth first
-        var_ids = []
-
-        class FrameParent(ParentNode):
-
-            def add_child(self, child):
-                var_ids.append(child)
-
         root_parent = FrameParent()
 
         initial_nodes = [Node(NodeValue(name, value), parent=root_parent)]
